@@ -12,7 +12,7 @@
         except RuntimeError:  session.closed ? raise APISessionClosed : raise
         except (ClientConnectionError, APIServerError, TimeoutError, APIForbiddenError,
                 APITooManyRequestsError) as e:
-            if 429: retry_after := header "Retry-After" (truthy) ▸ _parse_retry_after(.)
+            if APIError (429, 5xx, 403): retry_after := header "Retry-After" (truthy) ▸ _parse_retry_after(.)
                                | details.retryAfterSeconds (truthy) ▸ ceil(float(.)) | None
                     -- _parse_retry_after: ceil(float(v)) | HTTP-date ▸ max(0, ceil(when - now)) | None
                     if retry_after is not None and backoff is not None:
@@ -63,10 +63,10 @@ inductive PayloadKind where
   | otherJson    -- a JSON dict of another kind        → dropped (payload = None)
   | text         -- not JSON                           → a string (no `.details`)
   | empty
-  | otherValue   -- a JSON body that is a truthy list / number / bool: `APIError.__init__` calls
-                 -- `payload.get('message')` on it → AttributeError out of `check_response` (finding F6)
-  | badDetails   -- a `Status` dict whose `details` is a truthy non-dict (string, list): the handler's
-                 -- `e.details.get("retryAfterSeconds")` raises AttributeError (finding F6)
+  | otherValue   -- a JSON body that is a truthy list / number / bool: kept as the payload, carries no
+                 -- message and no details (F6 fixed in ba57df1: it used to raise AttributeError)
+  | badDetails   -- a `Status` dict whose `details` is a truthy non-dict (string, list): no details
+                 -- (F6 fixed: `isinstance(e.details, dict)`)
   deriving DecidableEq, Repr, Inhabited
 
 /-- The `Retry-After` header as `api._parse_retry_after` sees it. Values are in ticks. -/
@@ -89,8 +89,7 @@ structure Resp where
   payload : PayloadKind
   detRA : Option Int          -- `details.retryAfterSeconds` in the JSON body, if present (ticks)
   detBad : Bool               -- `details.retryAfterSeconds` is present and truthy but `math.ceil(float(.))`
-                              -- raises on it ("soon", NaN, Infinity, [5]): ValueError / OverflowError /
-                              -- TypeError inside the retry handler, not caught (finding F6)
+                              -- raises on it ("soon", NaN, Infinity, [5]): caught, no Retry-After (F6 fixed)
   deriving DecidableEq, Repr, Inhabited
 
 /-- What the fake session does on one attempt. -/
@@ -118,11 +117,11 @@ def ceilSec (x : Int) : Int := -(((-x) / tickPerSec) * tickPerSec)
 def detailsRA (r : Resp) : Option Int :=
   if r.payload = .statusJson then
     match r.detRA with
-    | some d => if d ≠ 0 then some (ceilSec d) else none
+    | some d => if r.detBad then none else if d ≠ 0 then some (ceilSec d) else none
     | none => none
   else none
 
-/-- The `retry_after` of a 429: the header first (any non-empty string is truthy, "0" included):
+/-- The `retry_after` of a retried API error (any status, since f4c61b5 — F7 fixed): the header first (any non-empty string is truthy, "0" included):
     delay-seconds rounded up to whole seconds (under any spelling of the name), an HTTP-date as `max(0, ceil(when - now))`, anything else None;
     only without a header `details.retryAfterSeconds` (truthy, so 0 counts as absent; details exist
     only when the body was a `Status` JSON). -/
@@ -147,7 +146,7 @@ def requested (r : Resp) : Option Int :=
   | .absent =>
     if r.payload = .statusJson then
       match r.detRA with
-      | some d => if d ≠ 0 then some d else none
+      | some d => if r.detBad then none else if d ≠ 0 then some d else none
       | none => none
     else none
 
@@ -161,25 +160,15 @@ def effDelay (enforce : Bool) (ra : Option Int) (b : Int) : Int :=
 inductive Verdict where
   | success
   | raise (c : ErrClass)                  -- leaves `request` at once
-  | retry (c : ErrClass) (ra : Option Int) -- caught by the retry clause; `ra` only for 429
+  | retry (c : ErrClass) (ra : Option Int) -- caught by the retry clause; `ra`: the server's Retry-After
   deriving DecidableEq, Repr
-
-/-- Does handling this error response raise a FOREIGN exception (finding F6)? Either while the
-    error object is built in `check_response` (any status ≥ 400, body a truthy non-dict JSON value), or
-    in the 429 handler when the header is absent/empty so that the body's details are consulted. -/
-def bodyRaises (r : Resp) : Bool :=
-  raises r.status &&
-  (r.payload = .otherValue ||
-   (r.status = 429 && r.hdr = .absent &&
-     (r.payload = .badDetails || (r.payload = .statusJson && r.detBad))))
 
 def verdict : Fault → Verdict
   | .ok => .success
   | .http r =>
     if raises r.status then
-      if bodyRaises r then .raise .other else
       let c := classify r.status
-      if retryable c then .retry c (if c = .tooMany then retryAfter r else none)
+      if retryable c then .retry c (retryAfter r)
       else .raise c
     else .success
   | .exc conn timeout runtime ssl closed =>
